@@ -78,7 +78,24 @@ Section Search.
     | None => SKeepInitial
     | Some a0 => search_loop 100 (negb (Qle_bool a0 target)) initial 0
     end.
+
+  (* the same with the first (always forward) trial given separately: when the search goes down,
+     the trials of the loop integrate backward in time and `acc` is then the backward acceptance *)
+  Definition search2 (a_first : option Q) : search_result :=
+    match a_first with
+    | None => SKeepInitial
+    | Some a0 => search_loop 100 (negb (Qle_bool a0 target)) initial 0
+    end.
 End Search.
+
+(* evaluation on a finite table of trial acceptances (step sizes are initial * 2^k, exact) *)
+Definition acc_of_table (t : list (Q * option Q)) (s : Q) : option Q :=
+  match find (fun p => Qeq_bool (fst p) s) t with Some p => snd p | None => None end.
+Definition eval_search (t : list (Q * option Q)) (initial target : Q) (a_first : option Q) : list Z :=
+  match search2 (acc_of_table t) initial target a_first with
+  | SKeepInitial => [0%Z]
+  | SFound st it => [1%Z; Qnum (Qred st); Z.pos (Qden (Qred st)); Z.of_nat it]
+  end.
 
 (* AcceptanceRateCollector: per-leapfrog statistics from the energy difference d = E0 - E,
    with e = exp(min(d,0)) in (0,1] and f = exp(d) > 0 as inputs *)
